@@ -334,6 +334,31 @@ class ReaderView:
         a0 = self.decode_call.args[0] if self.decode_call.args else None
         if not (isinstance(par, ast.Assign) and isinstance(par.targets[0], ast.Tuple) and len(par.targets[0].elts) == 3):
             raise AnalysisError("socket_read_task: the decode result is no longer unpacked into three names")
+        # the decoder's argument: the receive buffer attribute itself.  A local (or a slice of one) that is *built from* an attribute of the
+        # connection is a reader that keeps a cursor into a copy of the buffer: its clauses (rejoin, advance, progress) have another shape than
+        # the rules know - not decided.  An argument that does not involve the connection's state at all stays with the rules (C03 reports it).
+        if a0 is not None and not (isinstance(a0, ast.Attribute) and isinstance(a0.value, ast.Name) and a0.value.id == "self"):
+            seen, work, from_self = set(), [x.id for x in ast.walk(a0) if isinstance(x, ast.Name)], False
+            if any(isinstance(x, ast.Attribute) and isinstance(x.value, ast.Name) and x.value.id == "self" for x in ast.walk(a0)):
+                from_self = True
+            while work and not from_self:
+                nm = work.pop()
+                if nm in seen or nm == "self":
+                    continue
+                seen.add(nm)
+                for st in walk_no_nested(self.fn):
+                    if isinstance(st, (ast.Assign, ast.AugAssign, ast.AnnAssign)) and getattr(st, "value", None) is not None:
+                        tg = st.targets if isinstance(st, ast.Assign) else [st.target]
+                        if any(isinstance(x, ast.Name) and x.id == nm for t in tg for x in ast.walk(t)):
+                            for x in ast.walk(st.value):
+                                if isinstance(x, ast.Attribute) and isinstance(x.value, ast.Name) and x.value.id == "self" and not isinstance(getattr(x, "_parent", None), ast.Call):
+                                    if isinstance(x.ctx, ast.Load) and not (isinstance(getattr(x, "_parent", None), ast.Attribute)):
+                                        from_self = True
+                                elif isinstance(x, ast.Name):
+                                    work.append(x.id)
+            if from_self:
+                raise AnalysisError(f"socket_read_task: the decoder is given `{unparse(a0)[:40]}`, a value built from the connection's state through locals "
+                                    "(a cursor into a copy of the receive buffer?): this reader shape is not modelled")
 def extent_findings(dv: DecoderView):
     """C01 rule 1 / C03 shared construct: the frame extent is delimited only by SOH-anchored
     searches (next-frame marker, CheckSum trailer), never by a bare marker search, and not by
